@@ -1,5 +1,6 @@
 import ProductMD.Model.Py
 import ProductMD.Model.Regex
+import ProductMD.Generated.AssertType
 /-!
 Generic interpreter for the library's validator idiom (`_assert_type`, `_assert_value`, `_assert_not_blank`,
 `_assert_matches_re`, optionally under a simple guard, or a bare `raise ValueError` under a condition).
@@ -59,7 +60,7 @@ deriving Repr
 
 /-- verdict of one rule on an object; `customs` interprets the hand-bound rules -/
 def Rule.check (customs : Str → Obj → Except Err Unit) (o : Obj) : Rule → Except Err Unit
-  | .type f ts => if ts.any ((o.get f).isinstance ·) then .ok () else .error .typeError
+  | .type f ts => if (o.get f).assertTypeOk Gen.assertTypeBoolStrict ts then .ok () else .error .typeError
   | .value f table => match o.get f with
       | .str s => if table.contains s then .ok () else .error .valueError
       | _ => .error .valueError
@@ -104,5 +105,34 @@ theorem runRules_enforces (customs) (o : Obj) (rs : List Rule) (r : Rule) (hr : 
   | ok u =>
     cases u
     exact absurd ((runRules_ok_iff customs o rs).mp h r hr) hv
+
+/-! ### `_assert_type` under either generated shape -/
+
+/-- whatever the shape, an accepted value is an instance of one of the listed types -/
+theorem PyVal.assertTypeOk_any {strict : Bool} {v : PyVal} {ts : List PyType} (h : v.assertTypeOk strict ts = true) :
+    ts.any (v.isinstance ·) = true := by
+  cases strict <;> simp_all [PyVal.assertTypeOk]
+
+/-- for a value that is not a bool both shapes agree -/
+theorem PyVal.assertTypeOk_of_not_bool {strict : Bool} {v : PyVal} {ts : List PyType} (h : v.isBool = false) :
+    v.assertTypeOk strict ts = ts.any (v.isinstance ·) := by
+  cases strict <;> simp [PyVal.assertTypeOk, h]
+
+/-- the strict shape refuses a bool wherever `bool` is not listed -/
+theorem PyVal.assertTypeOk_strict_bool (b : Bool) {ts : List PyType} (h : ts.contains .bool = false) :
+    (PyVal.bool b).assertTypeOk true ts = false := by
+  simp only [PyVal.assertTypeOk, PyVal.isBool, h, if_true, Bool.not_true, Bool.or_false, Bool.false_and]
+
+theorem Rule.check_type_ok {customs : Str → Obj → Except Err Unit} {o : Obj} {f : Str} {ts : List PyType}
+    (h : Rule.check customs o (.type f ts) = .ok ()) : (o.get f).assertTypeOk Gen.assertTypeBoolStrict ts = true := by
+  simp only [Rule.check] at h
+  split at h
+  · assumption
+  · cases h
+
+/-- a passed `.type` rule: the value is an instance of a listed type (either shape) -/
+theorem Rule.check_type_any {customs : Str → Obj → Except Err Unit} {o : Obj} {f : Str} {ts : List PyType}
+    (h : Rule.check customs o (.type f ts) = .ok ()) : ts.any ((o.get f).isinstance ·) = true :=
+  PyVal.assertTypeOk_any (Rule.check_type_ok h)
 
 end PM
